@@ -845,6 +845,11 @@ func c02r6(c *Ctx) {
 
 	// MarkDone: a non-nil in-flight request is re-inserted into pending and the connection appended to queue
 	md := p.Func(pkgXds, "PushQueue", "MarkDone")
+	// the locked region may be written as an immediately invoked function literal: analyse the function that holds it
+	md = funcHolding(md, func(ins ssa.Instruction) bool {
+		l, ok := ins.(*ssa.Lookup)
+		return ok && fieldOfLoad(l.X) == processing
+	})
 	var lk *ssa.Lookup
 	eachInstr(md, func(ins ssa.Instruction) {
 		if l, ok := ins.(*ssa.Lookup); ok && fieldOfLoad(l.X) == processing {
@@ -1448,4 +1453,70 @@ func snapshotChoice(fn *ssa.Function, v ssa.Value, b *ssa.BasicBlock, cur, other
 		return "the merged snapshot is neither operand's Push (" + x.String() + ")"
 	}
 	return check(v, b)
+}
+
+
+// funcHolding returns fn, or the function literal nested in it (at any depth) that contains an instruction satisfying
+// pred; fn itself when none does. Lets a rule follow code that was wrapped into an immediately invoked closure.
+func funcHolding(fn *ssa.Function, pred func(ssa.Instruction) bool) *ssa.Function {
+	has := false
+	eachInstr(fn, func(ins ssa.Instruction) {
+		if pred(ins) {
+			has = true
+		}
+	})
+	if has {
+		return fn
+	}
+	for _, a := range fn.AnonFuncs {
+		if g := funcHolding(a, pred); g != a || containsInstr(a, pred) {
+			return g
+		}
+	}
+	return fn
+}
+
+func containsInstr(fn *ssa.Function, pred func(ssa.Instruction) bool) bool {
+	has := false
+	eachInstr(fn, func(ins ssa.Instruction) {
+		if pred(ins) {
+			has = true
+		}
+	})
+	return has
+}
+
+
+// funcHoldingDeep: like funcHolding, but also follows static calls into functions of the same package (the anchored code
+// may have been extracted into a helper or a named method). Returns nil when nothing within depth holds it.
+func funcHoldingDeep(fn *ssa.Function, pred func(ssa.Instruction) bool, depth int) *ssa.Function {
+	if containsInstr(fn, pred) {
+		return fn
+	}
+	if depth <= 0 {
+		return nil
+	}
+	for _, a := range fn.AnonFuncs {
+		if g := funcHoldingDeep(a, pred, depth-1); g != nil {
+			return g
+		}
+	}
+	var found *ssa.Function
+	eachInstr(fn, func(ins ssa.Instruction) {
+		if found != nil {
+			return
+		}
+		ci, ok := ins.(ssa.CallInstruction)
+		if !ok {
+			return
+		}
+		callee := ci.Common().StaticCallee()
+		if callee == nil || callee.Blocks == nil || funcPkgPath(callee) != funcPkgPath(fn) || callee == fn {
+			return
+		}
+		if g := funcHoldingDeep(callee, pred, depth-1); g != nil {
+			found = g
+		}
+	})
+	return found
 }
